@@ -33,6 +33,12 @@ def lines_for(ctx):
         for ch in (' ', '\t', '\r', ':', ';'):
             yield 'x' * pos + ch + 'y' * 10
             yield 'x' * pos + ch * 3 + 'y' * 80
+    # escape sequences sliding across the fold boundaries of pure-ASCII lines
+    for pos in range(60, 160):
+        for esc in ('\\n', '\\,', '\\\\', '\\;'):
+            yield 'S:' + 'x' * pos + esc + 'y' * 12
+    for _ in range(ctx.vol(400)):
+        yield ''.join(ctx.rng.choice('ab\\,;n: ') for _ in range(ctx.rng.randint(60, 240)))
     for _ in range(ctx.vol(1500)):
         s = gen.rand_text(ctx.rng, 300, alphabet=list('abc :;\t\r'), wide=0.3)
         s = s.replace('\n', '')
